@@ -84,6 +84,108 @@ func checkC06(r *core.Run, p *core.Program) {
 	r.Rule("C06.retained-bytes", "every builder that keeps a byte slice handed in by an event (in the built value, a field, or a deferred closure) copies it first: the decoders reuse their buffers, so an uncopied slice changes when the next array, identifier or chunk is read.")
 	nRet := checkRetainedBytes(r, p, "C06.retained-bytes", nil)
 	r.Floor("C06.retained-bytes", "event-facing byte-slice parameters in package builder", nRet, 40)
+	// a wrapper that pops "the top of the stack" after delegating a value event pops the wrong builder when the delegate stacked one
+	r.Rule("C06.unstack-self", "a builder that delegates a value event to a child builder and then leaves the stack removes ITSELF (UnstackThisBuilder), not whatever is on top: some delegates (the node builder, once it has its value) stack a builder of their own during that event, and popping the top would remove that one.")
+	{
+		bpkg := p.Pkg("builder")
+		binfo := bpkg.TypesInfo
+		// methods (by name) of which some implementation stacks a builder
+		stacking := map[string]string{}
+		popsTop := map[*types.Func]bool{} // helper methods that call ctx.UnstackBuilder()
+		for _, f := range funcsOf(bpkg) {
+			if recvNamed(f.Obj) == nil {
+				continue
+			}
+			inspectCalls(binfo, f.Decl.Body, func(call *ast.CallExpr, c *types.Func) {
+				if c == nil {
+					return
+				}
+				if isMethodOf(c, "builder", "Context", "StackBuilder") || strings.HasPrefix(c.Name(), "BuildBegin") {
+					if strings.HasPrefix(f.Obj.Name(), "BuildFrom") {
+						stacking[f.Obj.Name()] = f.Name()
+					}
+				}
+				if isMethodOf(c, "builder", "Context", "UnstackBuilder") {
+					popsTop[f.Obj] = true
+				}
+			})
+		}
+		// one level: helper methods of a type that call a stacking helper (nodeBuilder.stackChildrenBuilder)
+		for _, f := range funcsOf(bpkg) {
+			if recvNamed(f.Obj) == nil || !strings.HasPrefix(f.Obj.Name(), "BuildFrom") {
+				continue
+			}
+			inspectCalls(binfo, f.Decl.Body, func(call *ast.CallExpr, c *types.Func) {
+				if c == nil || recvNamed(c) == nil || recvNamed(c).Obj() != recvNamed(f.Obj).Obj() {
+					return
+				}
+				if d := p.FuncDecl(c); d != nil {
+					inspectCalls(binfo, d.Body, func(call2 *ast.CallExpr, c2 *types.Func) {
+						if c2 != nil && (isMethodOf(c2, "builder", "Context", "StackBuilder") || strings.HasPrefix(c2.Name(), "BuildBegin")) {
+							stacking[f.Obj.Name()] = f.Name()
+						}
+					})
+				}
+			})
+		}
+		nW := 0
+		for _, f := range funcsOf(bpkg) {
+			if recvNamed(f.Obj) == nil || !strings.HasPrefix(f.Obj.Name(), "BuildFrom") {
+				continue
+			}
+			// delegation to a field of interface type Builder, followed by a pop of the top (direct or via a helper of the same type)
+			var delegPos, popPos token.Pos
+			inspectCalls(binfo, f.Decl.Body, func(call *ast.CallExpr, c *types.Func) {
+				if c == nil {
+					return
+				}
+				if sel, ok := call.Fun.(*ast.SelectorExpr); ok && c.Name() == f.Obj.Name() {
+					if fv := fieldOf(binfo, sel.X); fv != nil {
+						if _, isIface := fv.Type().Underlying().(*types.Interface); isIface {
+							delegPos = call.Pos()
+						}
+					}
+				}
+				if isMethodOf(c, "builder", "Context", "UnstackBuilder") || popsTop[c] {
+					if popPos == token.NoPos || call.Pos() > popPos {
+						popPos = call.Pos()
+					}
+				}
+			})
+			if delegPos == token.NoPos {
+				continue
+			}
+			nW++
+			bad := popPos != token.NoPos && popPos > delegPos && stacking[f.Obj.Name()] != ""
+			r.Check("C06.unstack-self", f.Name()+"|leaves the stack by removing itself", f.Decl.Pos(), !bad,
+				"after delegating "+f.Obj.Name()+" to its child this builder pops the TOP of the builder stack; "+stacking[f.Obj.Name()]+" stacks a builder during that very event, so the wrong builder is removed (a marker in a node's value position breaks the node)")
+		}
+		r.Floor("C06.unstack-self", "value events delegated to a child builder held in a field", nW, 17)
+	}
+	// a key/value alternating builder must know which position a reference arrives in
+	if f := findFn(p, "builder", "mapBuilder.BuildFromLocalReference"); f == nil {
+		r.Undecided("C06.references", "builder.mapBuilder.BuildFromLocalReference")
+	} else {
+		binfo := f.Pkg.TypesInfo
+		looks := false
+		ast.Inspect(f.Decl.Body, func(n ast.Node) bool {
+			if ifs, ok := n.(*ast.IfStmt); ok {
+				if fv := fieldOf(binfo, stripParens(ifs.Cond)); fv != nil && fv.Name() == "builderIndex" {
+					looks = true
+				}
+				if be, ok := stripParens(ifs.Cond).(*ast.BinaryExpr); ok {
+					for _, side := range []ast.Expr{be.X, be.Y} {
+						if fv := fieldOf(binfo, side); fv != nil && fv.Name() == "builderIndex" {
+							looks = true
+						}
+					}
+				}
+			}
+			return true
+		})
+		r.Check("C06.references", "(*builder.mapBuilder).BuildFromLocalReference|distinguishes key position from value position", f.Decl.Pos(), looks,
+			"a reference can stand in key position ({$id = value}); the map builder treats every reference as a value and stores it under a key that is not set yet (reflect panics)")
+	}
 	// dates and times of day have no Go time equivalent: only timestamps may be converted
 	r.Rule("C06.time-kind", "the untyped builder converts a time value to a Go time.Time only when it is a timestamp (the conversion is guarded by the value's type being TimeTypeTimestamp); a date or a time of day is kept as the compact time value, because as a Go time it would be re-marshaled as a timestamp of another day or year.")
 	if f := findFn(p, "builder", "interfaceBuilder.BuildFromTime"); f == nil {
